@@ -15,6 +15,10 @@ Three kinds of comparison are made on every case:
      * translate: reference distance start -> result is r, reference position angle is theta (mod 360);
      * scalar and array calls agree element-wise; integer-typed arrays, Python ints, 0-d arrays, numpy scalar types
        and mixed scalar/array broadcasting give the float64 answer; no argument array is modified;
+     * exact coincidences: pairs solved (bisection + ulp stepping on ra2) so that gcd's haversine intermediate `a`
+       EQUALS each constant the source compares it with, judged like every other pair;
+     * environment: dec2dms/dec2hms print the same strings under TZ=AWST-8, IST-5:30, EST5, NST3:30 (time.tzset,
+       restored afterwards) as in the default environment;
      * call HISTORIES: the same ndarray objects re-used across calls with their contents changed in place (each
        argument in turn) give, at every call, the answer fresh arrays with the same values give;
      * dec2dms / dec2hms: output matches the format, minutes < 60, seconds < 60, hours < 24,
@@ -59,7 +63,8 @@ ASSUMPTIONS = [
     "parseNum and tied to the code only by this sampled correspondence (exact string equality)",
     "the rounding step n = int(round(x*360000)) (resp. x*24000) is a hypothesis |x*c - n| <= 1/2 of the theorems; the "
     "harness recomputes n in exact rational arithmetic and excludes inputs within 1e-6 of a tie",
-    "np.where(a > 0.5, far, sep) in gcd is hand-modelled (Model.C17.gcdSelect); the theorems cover both branches",
+    "the selection np.where(a > 0.5, far, sep) of gcd is regenerated at Float (Gen.C17.gcdSelect; gcd_select_total: for every "
+    "double a the result is one of the two branch values); the metric theorems over the reals cover both branches",
 ]
 TRUSTED = ["Gen.C17.* regenerated from angle_tools.py by py2lean.py (real mode: gcd, bear, translate, dec2dec, ra2dec; "
            "int mode: field arithmetic of dec2dms/dec2hms)",
@@ -1040,6 +1045,134 @@ def judge_types(ctx, n):
                 ctx.case(case, nontrivial_key=('fmt-type', name, float(xv), kind))
 
 # ---------------------------------------------------------------------------------------------
+# exact coincidences: inputs on which gcd's haversine intermediate `a` EQUALS a threshold of the selection
+#
+# Random input meets `a == t` with probability ~1e-16, so the boundary is solved for: the constants that the
+# source under test compares `a` with are read from gcd's AST, and for each of them ra2 is found by bisection
+# and then ulp stepping such that `a` (recomputed with the same numpy expression) is exactly that double.
+# ---------------------------------------------------------------------------------------------
+def selection_thresholds():
+    import ast
+    import os
+    try:
+        tree = ast.parse(open(os.path.join(common.repo_path(), 'AegeanTools', 'angle_tools.py')).read())
+        fn = [n for n in ast.walk(tree) if isinstance(n, ast.FunctionDef) and n.name == 'gcd'][0]
+    except Exception:
+        return []
+    out = set()
+    for n in ast.walk(fn):
+        if isinstance(n, ast.Compare):
+            terms = [n.left] + list(n.comparators)
+            names = [t for t in terms if isinstance(t, ast.Name) and t.id == 'a']
+            consts = [t.value for t in terms if isinstance(t, ast.Constant) and isinstance(t.value, (int, float))
+                      and not isinstance(t.value, bool)]
+            if names:
+                out.update(float(c) for c in consts)
+    return sorted(t for t in out if 0.0 < t < 1.0)
+
+
+def hav_a(ra1, dec1, ra2, dec2):
+    """the haversine intermediate exactly as angle_tools.gcd computes it"""
+    dlon = ra2 - ra1
+    dlat = dec2 - dec1
+    slon = np.sin(np.radians(dlon) / 2) ** 2
+    a = np.sin(np.radians(dlat) / 2) ** 2
+    a += np.cos(np.radians(dec1)) * np.cos(np.radians(dec2)) * slon
+    return a
+
+
+def solve_a_equals(rng, t, want=4, tries=60, window=400):
+    """pairs (ra1, dec1, ra2, dec2) with hav_a == t exactly"""
+    found = []
+    nice = [(45.0, 60.0, -50.0), (10.0, 20.0, -35.0), (200.0, -5.0, 40.0)]
+    for k in range(tries):
+        if len(found) >= want:
+            break
+        ra1, dec1, dec2 = nice[k] if k < len(nice) else (rng.uniform(0, 180), rng.uniform(-75, 75), rng.uniform(-75, 75))
+        lo, hi = 0.0, 180.0
+        if not (float(hav_a(ra1, dec1, ra1 + lo, dec2)) < t < float(hav_a(ra1, dec1, ra1 + hi, dec2))):
+            continue
+        for _ in range(80):
+            mid = 0.5 * (lo + hi)
+            if float(hav_a(ra1, dec1, ra1 + mid, dec2)) < t:
+                lo = mid
+            else:
+                hi = mid
+        c = ra1 + lo
+        cand = [c]
+        x = c
+        for _ in range(window):
+            x = float(np.nextafter(x, np.inf))
+            cand.append(x)
+        x = c
+        for _ in range(window):
+            x = float(np.nextafter(x, -np.inf))
+            cand.append(x)
+        cand = np.array(cand)
+        av = hav_a(ra1, dec1, cand, dec2)
+        for ra2 in cand[av == t][:2]:
+            if float(hav_a(ra1, dec1, float(ra2), dec2)) == t:
+                found.append((ra1, dec1, float(ra2), dec2))
+    return found
+
+
+def judge_boundaries(ctx, want):
+    ths = selection_thresholds()
+    ctx.extra['selection_thresholds'] = ths
+    for t in ths:
+        pts = solve_a_equals(ctx.rng, t, want=want)
+        ctx.count(f'boundary:a=={t!r}', len(pts))
+        if pts:
+            judge_pairs(ctx, [(f'boundary(a=={t!r})', *p) for p in pts])
+        else:
+            ctx.note(f"no input with a == {t!r} exactly was found")
+
+
+# ---------------------------------------------------------------------------------------------
+# environment slice: the strings must not depend on the process's time zone
+# ---------------------------------------------------------------------------------------------
+ENV_DMS = [-0.12345, 10.9999999, 45.5, -89.99, 0.0, 12.0729]
+ENV_HMS = [0.0, 14.9999999, 23.5678, 187.5, 359.99, -15.0, 301.123456]
+
+
+def judge_env(ctx, tzs=('AWST-8', 'IST-5:30', 'EST5', 'NST3:30')):
+    import os
+    import time
+    at = _at()
+    if not hasattr(time, 'tzset'):
+        return
+    items = [('dec2dms', x) for x in ENV_DMS] + [('dec2hms', x) for x in ENV_HMS]
+    base = {}
+    for name, x in items:
+        try:
+            base[(name, x)] = getattr(at, name)(x)
+        except Exception as e:
+            base[(name, x)] = f"raised {type(e).__name__}"
+    old = os.environ.get('TZ')
+    try:
+        for tz in tzs:
+            os.environ['TZ'] = tz
+            time.tzset()
+            for name, x in items:
+                case = dict(kind='env', func=name, x=x, TZ=tz)
+                try:
+                    got = getattr(at, name)(x)
+                except Exception as e:
+                    got = f"raised {type(e).__name__}"
+                if got != base[(name, x)]:
+                    ctx.fail('spec', case, f"{name}({x!r}) = {got!r} in a process with TZ={tz} but {base[(name, x)]!r} in the default "
+                                           f"environment (TZ={old!r})", dict(site=name, what='environment-dependence', env='TZ'))
+                ctx.count('env:TZ=' + tz)
+                ctx.case(case, nontrivial_key=('env', name, x, tz))
+    finally:
+        if old is None:
+            os.environ.pop('TZ', None)
+        else:
+            os.environ['TZ'] = old
+        time.tzset()
+
+
+# ---------------------------------------------------------------------------------------------
 # corpus: minimised past failures, always run first
 # ---------------------------------------------------------------------------------------------
 CORPUS_PAIRS = [
@@ -1112,6 +1245,8 @@ def run(ctx):
     judge_parse_strings(ctx, gen_parse_strings(rng, sz['strings']))
     judge_histories(ctx, sz['histories'])
     judge_types(ctx, sz['types'])
+    judge_boundaries(ctx, 4 if ctx.quick else 12)
+    judge_env(ctx)
     judge_pinned_model(ctx, xs_d[: sz['sexa'] // 2], xs_h[: sz['sexa'] // 2])
 
 
@@ -1125,7 +1260,9 @@ def search(ctx):
     ctx.driver_ok = False
     try:
         sz = sizes(ctx, wide=True)
-        for step in (lambda: judge_histories(ctx, sz['histories']),
+        for step in (lambda: judge_boundaries(ctx, 12),
+                     lambda: judge_env(ctx),
+                     lambda: judge_histories(ctx, sz['histories']),
                      lambda: judge_types(ctx, sz['types']),
                      lambda: judge_parse_strings(ctx, gen_parse_strings(rng, sz['strings'])),
                      lambda: judge_sexa(ctx, 'dms', gen_dms(rng, sz['sexa']), model=False),
@@ -1152,6 +1289,8 @@ def replay(ctx, rec):
         judge_translate(ctx, [(c['ra'], c['dec'], c['r'], c['theta'])])
     elif k in ('dms', 'hms'):
         judge_sexa(ctx, k, [float(c['x'])])
+    elif k == 'env':
+        judge_env(ctx, tzs=(c['TZ'],))
     elif k == 'history':
         judge_history(ctx, c['func'], c['states'], c.get('dtype', 'float64'), regime='replay')
     elif k == 'fmt-type':
